@@ -175,6 +175,25 @@ reg('C08', 'exploration',
     'oracles', 'E4-bounded-exhaustive-enumeration')
 
 
+reg('C20', 'exploration',
+    'Finite product, completely enumerated: every shipped Equation '
+    'subclass (286 of 288 instantiated) x every property it needs '
+    'explicitly or through the closure of precomputed pair symbols x '
+    'removal from the destination / from one of two sources, in flat '
+    'lists, groups and sub-groups; destination that is its own source; '
+    'misspelt destination and source names; every shipped stepper x every '
+    'argument x first / later array; one generated user equation per '
+    'precomputed symbol. The real AccelerationEval / SPHCompiler front end '
+    'is driven up to (a patched) compile(): reaching it is the violation. '
+    'Nothing is compiled or executed, which is the point of the property.',
+    'Trusted: the independent table of what each precomputed symbol reads '
+    '(vlib/eqtable.py, from the documentation); classes that cannot be '
+    'instantiated from the generic value table are listed in the evidence '
+    'as not covered.',
+    'exhaustive enumeration of (program, removal site) pairs on the real '
+    'set-up path', 'E4-bounded-exhaustive-enumeration')
+
+
 def main():
     props = [json.loads(l) for l in open(os.path.join(V, 'properties.jsonl'))]
     checks = []
